@@ -445,13 +445,20 @@ def generate(ctx):
         t[~_CENTER] = False
         cases.append({"fn": "idx", "img": _rand_img(rng, H, W).astype(int).tolist(), "tab": _bits(t),
                       "b": int(rng.randint(2)), "it": int(rng.choice([1, 2, 3, -1, 0]))})
-    # (e) sequences of calls inside one case
+    # (0) sequences of calls inside one case; first, so that a defect that depends on the calls made before in the
+    # same process is reported with a self-contained replay
+    seqs = []
     for _ in range(ctx.n(200, 3000)):
         c = _seq_case(rng)
         if c["steps"]:
-            cases.append(c)
+            seqs.append(c)
             ctx.count("seq-steps", len(c["steps"]))
             ctx.count("seq-steps-reusing-an-edited-table", sum(1 for st in c["steps"] if st.get("reuse")))
+    # the first ones run in a process of their own each (outcome independent of the run's history)
+    for c in seqs[:ctx.n(30, 200)]:
+        c["iso"] = True
+        ctx.count("seq-in-own-process")
+    cases = seqs + cases
     for c in cases:
         ctx.count("fn:" + c["fn"])
         if c["fn"] in ("tl", "op"):
@@ -519,6 +526,52 @@ def _call_op(M, c):
     return {"out": _grid(r), "shape": list(np.asarray(r).shape)}
 
 
+def _run_seq(M, case):
+    """many calls in one process: every user table is built, used and dropped before the next one is built (CPython
+    then hands the new array the id/memory of the old one); "reuse" steps edit the previous table object in place and
+    call again with the very same object"""
+    outs = []
+    table = None
+    for st in case["steps"]:
+        try:
+            if st["fn"] == "op":
+                outs.append(_call_op(M, st))
+                continue
+            if st.get("reuse") and table is not None:
+                new = _tab(st["tab"])
+                table[...] = new.astype(table.dtype)          # edited in place, same object
+            else:
+                table = None                                   # freed first
+                table = _mk_table(st["tab"], st.get("tdt", "bool"), st.get("tlay", "C"))
+            outs.append(_call_tl(M, st, table))
+        except Exception as e:                                 # noqa: outcome of that step
+            outs.append({"exc": type(e).__name__, "msg": str(e)[:200]})
+    return {"steps": outs}
+
+
+_ISO = r"""
+import json, os, sys, warnings
+warnings.filterwarnings("ignore")
+import numpy as np
+np.seterr(all="ignore")
+import centrosome
+assert os.path.realpath(centrosome.__file__).startswith(os.path.realpath(os.environ["VERIF_STAGE"]))
+from centrosome import cpmorphology as M
+from harness.props import c06
+print(json.dumps(c06._run_seq(M, json.load(sys.stdin))))
+"""
+
+
+def _run_seq_isolated(case):
+    """the same sequence in a process of its own, so that the outcome depends on nothing but the case (a replay
+    reproduces it)"""
+    import json, subprocess, sys
+    r = subprocess.run([sys.executable, "-c", _ISO], input=json.dumps(case), capture_output=True, text=True, timeout=120)
+    if r.returncode != 0:
+        return {"exc": "SubprocessError", "msg": r.stderr[-300:]}
+    return json.loads(r.stdout.strip().splitlines()[-1])
+
+
 def impl(case):
     from centrosome import cpmorphology as M
     from centrosome import _cpmorphology2 as K
@@ -528,26 +581,9 @@ def impl(case):
     if fn == "op":
         return _call_op(M, case)
     if fn == "seq":
-        # many calls in one process: every user table is built, used and dropped before the next one
-        # is built (CPython then hands the new array the id/memory of the old one); "reuse" steps edit
-        # the previous table object in place and call again with the very same object
-        outs = []
-        table = None
-        for st in case["steps"]:
-            try:
-                if st["fn"] == "op":
-                    outs.append(_call_op(M, st))
-                    continue
-                if st.get("reuse") and table is not None:
-                    new = _tab(st["tab"])
-                    table[...] = new.astype(table.dtype)          # edited in place, same object
-                else:
-                    table = None                                   # freed first
-                    table = _mk_table(st["tab"], st.get("tdt", "bool"), st.get("tlay", "C"))
-                outs.append(_call_tl(M, st, table))
-            except Exception as e:                                 # noqa: outcome of that step
-                outs.append({"exc": type(e).__name__, "msg": str(e)[:200]})
-        return {"steps": outs}
+        if case.get("iso"):
+            return _run_seq_isolated(case)
+        return _run_seq(M, case)
     if fn == "tli":
         r = K.table_lookup_index(np.ascontiguousarray(np.array(case["img"], bool), np.uint8))
         return {"out": np.asarray(r).astype(np.int64).tolist(), "dtype": str(r.dtype)}
@@ -805,16 +841,14 @@ def shrink_candidates(case):
             steps = [dict(x) for x in steps]
             if steps and steps[0].get("reuse"):
                 steps[0].pop("reuse")
-            return {"fn": "seq", "steps": steps}
+            return {"fn": "seq", "steps": steps, "iso": True}
         if len(st) > 1:
             yield mk(st[:-1])
             yield mk(st[1:])
             for k in range(1, len(st) - 1):
                 yield mk(st[:k] + st[k + 1:])
-        if len(st) == 1:
-            yield st[0]
-        for k in range(len(st)):
-            for sub in itertools.islice(shrink_candidates(st[k]), 8):
+        for k in range(max(0, len(st) - 2), len(st)):
+            for sub in itertools.islice(shrink_candidates(st[k]), 6):
                 if sub["fn"] == st[k]["fn"]:
                     yield mk(st[:k] + [sub] + st[k + 1:])
         return
